@@ -20,7 +20,7 @@ ENGINES = [
 MODEL = "Trusted: the harness's reference model (sorted vector / BTreeMap) and the enumeration bounds printed in the evidence; third-party codec crates are trusted to round-trip."
 
 chk("C01", "model_checking", "bounded-exhaustive enumeration of entry-shape sequences x layout grid x codecs on the real Writer/Reader vs the inserted vector",
-    "Every file of a finite population (all entry-shape sequences up to n over {empty,1 B,600 B} keys x {0,300,1100 B} values x all 224 layouts; x every codec; deep and dense families) is written and read back by the real code, 6 scans each, and compared with the inserted vector. Exhaustive within the stated bounds, which reach every block-cut / index-cut / offset-slot composition the writer's structure allows.",
+    "Every file of a finite population (all entry-shape sequences up to n over {empty,1 B,600 B} keys x {0,300,1100 B} values x the 252-layout grid; x every codec; deep, dense, exact-fit and framing-boundary families) is written and read back by the real code (forward and backward scan from fresh cursors, len and codec through every accessor, two writer construction paths) and compared with the inserted vector. Exhaustive within the stated bounds, which reach every block-cut / index-cut / offset-slot composition the writer's structure allows.",
     MODEL, "DESIGN.md 4 C01")
 chk("C02", "model_checking", "bounded-exhaustive enumeration of files x every probe equivalence class x {GE,LE,EQ} x {fresh,reset,clone} vs BTreeMap-style model",
     "For every file of the population and every probe class (each stored key, each gap, before-first, after-last, plus prefix/extension variants) each seek kind is executed on a fresh, a reset and a cloned real cursor and compared with the model's ceiling/floor/match.",
